@@ -11,6 +11,9 @@ fn main() {
     if let Ok(h) = std::env::var("PV_C16_HISTORY") {
         props::c16::child_main(h.parse().unwrap_or(0));
     }
+    // a logger that accepts everything and discards it: the library's log statements have their
+    // arguments evaluated in every workload of every property, as with a user's -v
+    props::c20::enable_discarding_logger();
     let args = parse_args();
     let ctx = Ctx::new(&args);
     if let Err(e) = libx::selfcheck_plumbing() {
